@@ -412,7 +412,7 @@ class StrengthModel:
         '''
         Coherency effect for mixed dislocation on strong and shearable particles
         '''
-        return (2*np.cos(self.theta)**2 + 2.1352*np.sin(self.theta)**2) / Ls * np.power(self.T(self.theta, r0)**3 * self.G * self.eps[phase] * r / self.b**3, 1/4)
+        return self.J * (2*np.cos(self.theta)**2 + 2.1352*np.sin(self.theta)**2) / Ls * np.power(self.T(self.theta, r0)**3 * self.G * self.eps[phase] * r / self.b**3, 1/4)
 
     def Fmod(self, r, phase='all'):
         '''
@@ -481,7 +481,7 @@ class StrengthModel:
         '''
         Stacking fault energy effect for mixed dislocations on strong and shearable particles
         '''
-        return self.SFEFterm(r, phase) / (self.b * Ls)
+        return self.J * self.SFEFterm(r, phase) / (self.b * Ls)
 
     def orowan(self, r, Ls):
         '''
